@@ -572,8 +572,13 @@ def e2e_case(ctx, case):
     ctx.hist("e2e.complex_shapes", case["cplx"])
     ctx.hist("e2e.fs", "%.6g" % fs)
     ctx.hist("e2e.closest_mode_spacing", "<5% (inside the mpe default rtol)" if spacing < 0.05 else ">=5%")
-    for cls, method in ((SSIcov, "cov_mm"), (SSIdat, "dat")):
-        cs = dict(case, method=method)
+    variants = [(SSIcov, "cov_mm", None), (SSIdat, "dat", None)]
+    if case.get("unc"):
+        # covariance-driven run WITH the uncertainty computation switched on (a few data blocks): computing uncertainties must not lose
+        # true poles - the covariance tables themselves are C17's business
+        variants.append((SSIcov, "cov_mm", case["unc"]))
+    for cls, method, unc in variants:
+        cs = dict(case, method=method, calc_unc=bool(unc))
         data = Y.copy()
         ss = SingleSetup(data, fs=fs)
         forms = case.get("forms") or {}
@@ -590,11 +595,26 @@ def e2e_case(ctx, case):
             kw["hc"] = hcv
         if forms.get("sc"):
             kw["sc"] = dict(err_phi=0.03, err_xi=0.05, err_fn=0.01)  # the defaults, keys reversed
+        key = "C01:e2e-%s" % method
+        if unc:
+            key += "-unc"
+            kw.update(calc_unc=True, nb=unc["nb"])
+            if "hc" in kw:
+                kw["hc"] = dict(kw["hc"], cov_max=0.2)  # the documented default limit on the frequency variance stays active
         alg = cls(name="a", method=method, **kw) if cls is SSIcov else cls(name="a", **kw)
         ss.add_algorithms(alg)
-        ss.run_by_name("a")
+        try:
+            ss.run_by_name("a")
+        except np.linalg.LinAlgError:
+            if unc and ordmax > 2 * m:
+                # unchanged tree: the sensitivity of a singular vector whose singular value is at rounding level (orders above 2m on
+                # noise-free data) divides by sigma^2 ~ 1e-34 and np.linalg.inv hits an exactly singular matrix; recorded, not judged
+                ctx.note("SSIcov(calc_unc=True) on noise-free data with ordmax > 2m: SSI_fast raises LinAlgError in the singular-vector sensitivity "
+                         "(inverse of I + .. - H^T H / sigma_i^2 for a rounding-level sigma_i) in about 10 % of the cases; outside the property (C17)")
+                nj(ctx, "e2e-unc: LinAlgError in the sensitivity of a rounding-level singular value")
+                continue
+            raise
         res = alg.result
-        key = "C01:e2e-%s" % method
         # ---- general clause: the inputs are bit-unchanged by the run
         if not (same_arrays(data, Y) and same_arrays(ss.data, Y) and same_arrays(alg.data, Y)):
             ctx.fail("oracle", "%s: run() modified the measured data it was given" % method, cs, key=key + ":input-modified")
@@ -604,6 +624,26 @@ def e2e_case(ctx, case):
         if not cond < COND_E2E:
             nj(ctx, "e2e: Hankel conditioning")
             continue
+        if unc:
+            if not cond < 1e5:
+                # the first-order variance of a TRUE pole on noise-free data is rounding amplified by the conditioning (observed
+                # <= 1e-26 cond^4 on the unchanged code); beyond 1e5 it can reach the default limit by conditioning alone
+                nj(ctx, "e2e-unc: Hankel conditioning (variance of a true pole grows like cond^4)")
+                continue
+            ctx.hist("e2e.unc(ordmax-2m)", ordmax - 2 * m)
+            # raw frequency variances at order 2m, before any hard criterion (direct calls, same parameters): on noise-free data they are
+            # ~1e-25; NaN or absurd values are reported under their own key
+            Hh, Tt = ssi.build_hank(Y.T, Y.T[ref, :], br, "cov_mm", calc_unc=True, nb=unc["nb"])
+            o_ = ssi.SSI_fast(Hh, br, ordmax, calc_unc=True, T=Tt, nb=unc["nb"])
+            p_ = ssi.SSI_poles(o_[0], o_[1], o_[2], ordmax, 1.0 / fs, calc_unc=True, Q1=o_[3], Q2=o_[4], Q3=o_[5], Q4=o_[6])
+            fcov = np.asarray(p_[4])[: 2 * m, 2 * m]
+            fpol = np.asarray(p_[0])[: 2 * m, 2 * m]
+            # (how small they are is C17's matter - e.g. it depends on the balancing of Obs; here: finite and below the documented default
+            #  limit cov_max = 0.2, otherwise the default hard criterion removes a TRUE pole)
+            if not (np.all(np.isfinite(fcov)) and np.all(fcov < 0.2)):
+                ctx.fail("oracle", "SSI_poles(calc_unc=True), ordmax=%d: frequency variances of the %d true poles (fn %s) at order %d on noise-free data are %s "
+                         "(NaN or at/above the default limit cov_max=0.2; ~1e-25 on the unchanged code): the default hard criterion then removes true poles"
+                         % (ordmax, 2 * m, np.round(fpol, 4), 2 * m, fcov), cs, key=key + ":variance")
         tol = tol_e2e(cond)
         ctx.count(dict(kind_="e2e", **cs), nontrivial=True)
         ctx.sample(dict(kind="e2e", method=method, m=m, l=l, ref=ref, br=br, N=N, fs=fs, fn=case["fn"], xi=case["xi"]))
@@ -761,9 +801,13 @@ def gen_e2e_case(rng, mmax, k):
     if k % 5 == 3:
         ref = ref[::-1]
     extra = int(rng.integers(0, 3))
+    unc = None
+    if k % 4 == 1 or k % 8 == 4:  # uncertainty variant (3 in 8 cases): ordmax = 2m, 2m+1, 2m+2 or larger; real and complex shapes
+        extra = [0, 1, 2, 4, 6][int(rng.integers(0, 5))]
+        unc = dict(nb=int(rng.integers(4, 13)))
     ordmax = 2 * m + extra
     br = max(-(-ordmax // nref) - 1, -(-2 * m // l)) + int(rng.integers(1, 4))
-    N = int(rng.integers(40 + 2 * br + 2 * (br + 1) * (nref + l), 1500))
+    N = int(rng.integers(40 + 2 * br + 2 * (br + 1) * (nref + l) + (200 if unc else 0), 1500))
     # hard criteria: default ones for real shapes in every other case (true damping <= 8 % < xi_max, MPC 1, MPD 0), else loosened so that
     # complex shapes and the requested order are not filtered (the property is about the poles, not about the filters)
     hc = None if (not cplx and k % 4 == 0) else dict(conj=bool(k % 3), xi_max=0.5, mpc_lim=0.0, mpd_lim=10.0, cov_max=10.0)
@@ -780,7 +824,7 @@ def gen_e2e_case(rng, mmax, k):
     forms = dict(key_order=int(rng.integers(0, 1000)) if k % 2 else 0, int_values=bool(k % 4 >= 2), sc=bool(k % 3 == 0), br_float=bool(k % 7 == 5),
                  fs_int=bool(k % 2 == 0))
     return dict(fn=[float(f) for f in fn], xi=xi.tolist(), phi=[[[z.real, z.imag] for z in row] for row in phi], amp=[[z.real, z.imag] for z in amp],
-                fs=fs, N=N, br=br, ref=ref, ordmax=ordmax, hc=hc, cplx=cplx, req=req, forms=forms)
+                fs=fs, N=N, br=br, ref=ref, ordmax=ordmax, hc=hc, cplx=cplx, req=req, forms=forms, unc=unc)
 
 
 # ------------------------------------------------------------------------------------------------ stage (i'): graded conditioning
